@@ -41,6 +41,7 @@ type ScenResult struct {
 	BoundCompleted int              `json:"preemption_bound_completed"` // -1: unbounded search completed
 	CapReason      string           `json:"cap_reason,omitempty"`
 	Outcomes       map[string]int64 `json:"outcomes"`
+	Views          map[string]int64 `json:"client_views"`
 	Found          []mc.Found       `json:"found,omitempty"`
 	Err            string           `json:"err,omitempty"`
 	WallS          float64          `json:"wall_s"`
@@ -71,6 +72,27 @@ func outcomeStr(sc *Scenario, rec *Rec, blocked []mc.BlockedInfo) string {
 	return b.String()
 }
 
+// clientView is the part of an outcome that a free-running native run can
+// observe reliably: what the client got (application metadata keys only).
+func clientView(sc *Scenario, rec *Rec) string {
+	var b strings.Builder
+	for i, rr := range rec.RPCs {
+		fmt.Fprintf(&b, "rpc%d[recv=%s final=%s hdr=%s trl=%s]", i, strings.Join(rr.CliRecv, ","), strings.Join(rr.Finals, ";"), appMD(rr.OptHeader), appMD(rr.OptTrailer))
+	}
+	return b.String()
+}
+
+// appMD keeps the k=v-k pairs the handler scripts set and drops transport keys.
+func appMD(printed string) string {
+	var keep []string
+	for _, f := range strings.Fields(strings.Trim(printed, "{}")) {
+		if kv := strings.SplitN(f, "=", 2); len(kv) == 2 && kv[1] == "v-"+kv[0] {
+			keep = append(keep, f)
+		}
+	}
+	return "{" + strings.Join(keep, " ") + "}"
+}
+
 func newExplorer(p *Property, sc *Scenario, bound int, deadline time.Time, sampleSink *[][]uint8) *mc.Explorer {
 	var env *Env
 	e := &mc.Explorer{Bound: bound, Timers: p.Timers, Deadline: deadline, MaxFound: 40}
@@ -81,6 +103,7 @@ func newExplorer(p *Property, sc *Scenario, bound int, deadline time.Time, sampl
 	}
 	e.End = func(s *mc.Sched) []mc.Violation {
 		e.NoteOutcome(outcomeOf(sc, env.rec, s))
+		e.NoteOutcome("view:" + clientView(sc, env.rec))
 		if sampleSink != nil && len(*sampleSink) < 25 {
 			*sampleSink = append(*sampleSink, append([]uint8(nil), s.Choices...))
 		}
@@ -132,7 +155,7 @@ func exploreScenario(p *Property, sc *Scenario, idx int, budget time.Duration) *
 		}
 		merge(e)
 		res.States, res.Transitions, res.Executions, res.Complete, res.MaxDepth = e.States, e.Transitions, e.Executions, e.Complete, e.MaxDepth
-		res.Outcomes = e.Outcomes
+		res.Outcomes, res.Views = splitViews(e.Outcomes)
 		if e.Capped && e.CapReason != "violation limit" {
 			res.CapReason = e.CapReason
 		} else {
@@ -149,7 +172,7 @@ func exploreScenario(p *Property, sc *Scenario, idx int, budget time.Duration) *
 		e := newExplorer(p, sc, b, time.Now().Add(budget), &samples)
 		e.Run()
 		res.States, res.Transitions, res.Executions, res.Complete, res.MaxDepth = e.States, e.Transitions, e.Executions, e.Complete, e.MaxDepth
-		res.Outcomes = e.Outcomes
+		res.Outcomes, res.Views = splitViews(e.Outcomes)
 	}
 	// determinism: replay recorded schedules twice, require identical traces and observations
 	check := func(ch []uint8) (string, []mc.Violation, error) {
@@ -198,6 +221,18 @@ func exploreScenario(p *Property, sc *Scenario, idx int, budget time.Duration) *
 	}
 	res.WallS = time.Since(start).Seconds()
 	return res
+}
+
+func splitViews(all map[string]int64) (map[string]int64, map[string]int64) {
+	o, v := map[string]int64{}, map[string]int64{}
+	for k, n := range all {
+		if strings.HasPrefix(k, "view:") {
+			v[k[5:]] = n
+		} else {
+			o[k] = n
+		}
+	}
+	return o, v
 }
 
 func stepsCompact(tr []mc.Step) []string {
